@@ -15,19 +15,21 @@ From VF Require Import Base.Prelude Gen.Enums Gen.Configs Gen.Registry Gen.Check
 
 (* Whatever sequences of add / load / get / need_calibration calls produced
    two recipe managers: if their rule lists are equal, the whole pipeline
-   (plan with buffer-sharing check, instructions, transformed graph) returns
+   (plan with buffer-sharing check, instructions, transformed graph; for every
+   assignment of parameter-equality classes) returns
    the same result — same model or same exception — for every model, scope
    table, regex matcher and statistics. *)
 Theorem C14_output_is_a_function_of_model_rule_list_and_statistics :
-  forall matches post_init (h1 h2 : list rop),
+  forall mk_cls matches post_init (h1 h2 : list rop),
     let s1 := fst (run check matches post_init init h1) in
     let s2 := fst (run check matches post_init init h2) in
     flatten s1 = flatten s2 ->
     forall scope_id m scopes stats,
-      pipeline matches s1 scope_id m scopes stats = pipeline matches s2 scope_id m scopes stats.
+      pipeline_cls mk_cls matches s1 scope_id m scopes stats
+      = pipeline_cls mk_cls matches s2 scope_id m scopes stats.
 Proof.
-  intros matches post_init h1 h2 s1 s2 E scope_id m scopes stats.
-  apply pipeline_ext. apply same_flatten_same_resolution; [| |exact E];
+  intros mk_cls matches post_init h1 h2 s1 s2 E scope_id m scopes stats.
+  apply pipeline_cls_ext. apply same_flatten_same_resolution; [| |exact E];
     apply run_inv; apply Inv_init.
 Qed.
 Print Assumptions C14_output_is_a_function_of_model_rule_list_and_statistics.
